@@ -40,6 +40,10 @@ def run(ctx):
             r["shifts"] = sh; r["ext_mom"] = None
             s2 = dict(s, routing=r, req=S.sample_request(s["case"], r, s["table"], s["xs"]), group=None, special="zero_u0")
             ss.append(s2)
+    for kk, s in enumerate(ss):
+        if kk % 3 == 1 and s.get("special") is None:
+            # every third sample with the matrix stability test on (a generous tolerance: it must not change any returned number)
+            s["req"] = S.sample_request(s["case"], s["routing"], s["table"], s["xs"], tol=1e-3)
     S.run(ss)
     SC.corr_momenta(ctx, ss)
     SC.generic_scalar_guard(ctx, ss[:: 7], k=6)
